@@ -94,6 +94,17 @@ fn near_miss_keys(op: &str) -> Vec<String> {
     v
 }
 
+pub const FOREIGN_KEYS: &[&str] = &[
+    "&&", "||", "&", "|", "^", "~", "not", "NOT", "AND", "OR", "xor", "nor", "nand", "<>", "=>", "->", "=", "<=>", "≠", "≤", "≥", "eq", "ne", "neq", "gt", "lt", "gte", "lte", "ge", "le", "equals", "is", "isnt",
+    "**", "//", "mod", "div", "rem", "add", "sub", "mul", "plus", "minus", "times", "sum", "avg", "mean", "abs", "ceil", "floor", "round", "sqrt", "pow", "exp", "neg", "count", "len", "length", "size",
+    "contains", "includes", "startsWith", "endsWith", "starts_with", "ends_with", "regex", "match", "matches", "like", "between", "exists", "typeof", "isNull", "is_null", "coalesce", "concat", "join", "split",
+    "lower", "upper", "trim", "replace", "date", "now", "ifelse", "else", "then", "elif", "case", "switch", "when", "default", "let", "fn", "lambda", "apply", "call", "eval", "get", "set", "path", "ref",
+    "$ref", "$eval", "$var", "$if", "$and", "$or", "$not", "$eq", "$ne", "$gt", "$lt", "$in", "$nin", "variable", "vars", "in_array", "not_in", "nin", "any", "every", "find", "sort", "reverse", "unique",
+    "distinct", "flatten", "keys", "values", "entries", "empty", "is_empty", "defined", "undefined", "null", "true", "false", "method", "preserve", "rule", "rules", "operator", "op", "args", "!!!", "====",
+    "!===", "=<", "=>=", ">>", "<<", "++", "--", "+=", "?", ":", "??", "?.", "if_", "if?", "?:?", "iff", "unless", "none_of", "all_of", "any_of", "some_of", "map_", "filter_", "reduce_", "fold", "each",
+    "missing_all", "missing_any", "has", "has_key", "in?", "cat_", "str", "string", "number", "int", "float", "bool", "array", "object", "list", "dict", "tuple", "max_", "min_", "maximum", "minimum",
+];
+
 fn c02_literal(ctx: &mut Ctx, v: &Value, datas: &[Value], class: &str) {
     debug_assert!(refsem::as_op(v).is_none());
     for d in datas {
@@ -155,6 +166,22 @@ fn c02_core(ctx: &mut Ctx) {
             c02_literal(ctx, &v, &datas, "operator-key-plus-other");
             let v = obj(vec![(op.to_string(), json!({"log": "LEAK-m"})), ("".to_string(), json!({"/": [1]}))]);
             c02_literal(ctx, &v, &datas, "operator-key-plus-other");
+        }
+    }
+    // single-key objects keyed by operator spellings of *other* languages and rule engines (and by
+    // JsonLogic operators this implementation does not have): unknown keys, hence literals
+    for k in FOREIGN_KEYS.iter() {
+        idx += 1;
+        if !ctx.mine(idx) || refsem::is_operator(k) {
+            continue;
+        }
+        for a in [json!([1, 2]), json!("a"), json!([{"log": "LEAK-arg"}, {"var": "a"}]), json!({"var": "a"}), json!([])] {
+            let lit = obj(vec![(k.to_string(), a)]);
+            c02_literal(ctx, &lit, &datas[..4], "foreign-operator-key");
+            // and in operand position of real operators
+            for rule in [json!({"merge": [[lit.clone()]]}), json!({"if": [lit.clone(), lit.clone(), 0]}), json!({"==": [lit.clone(), "[object Object]"]}), json!({"map": [[1], lit.clone()]}), json!({"and": [1, lit.clone()]}), json!({"var": ["nope", lit.clone()]})] {
+                ctx.check("c02.model", &rule, &datas[0]);
+            }
         }
     }
     c02_literal(ctx, &json!({}), &datas, "empty-object");
@@ -389,12 +416,14 @@ pub fn c02(ctx: &mut Ctx) {
     c02_core(ctx);
     c02_lookalikes(ctx);
     crate::props_sizes::c02(ctx);
+    crate::props_far::c02(ctx);
 }
 
 pub fn c03(ctx: &mut Ctx) {
     c03_core(ctx);
     c03_nested(ctx);
     crate::props_sizes::c03(ctx);
+    crate::props_far::c03(ctx);
 }
 
 /// Templates with a hole: contexts in which an operand expression is certainly evaluated.
